@@ -1,4 +1,5 @@
 import DendroModel.Model.C01
+import DendroModel.Model.C01Canon
 open DendroModel DendroModel.C01
 
 def insertSortedPair (x : Nat × Int) : List (Nat × Int) → List (Nat × Int)
@@ -43,6 +44,11 @@ def handle (ws : List String) : String :=
       let enc := encode r true true t
       b01 (treeCompatible enc (encodeTree r true true t).mask s)
     | _, _, _ => "bad-op"
+  -- ucanon <tree>: the unrooted topology as the canonical tree seeded next to the lowest leaf, children sorted
+  | "ucanon" :: rest =>
+    match parseTree rest with
+    | some (t, []) => ucanon t
+    | _ => "bad-op"
   | _ => "bad-op"
 
 def main : IO Unit := do driverLoop (← IO.getStdin) handle
